@@ -33,6 +33,9 @@ namespace riddle
                 case '\n':
                     error("newline in string literal..");
                     return nullptr;
+                case -1:
+                    error("end of input in string literal..");
+                    return nullptr;
                 default:
                     str += ch;
                 }
@@ -61,6 +64,9 @@ namespace riddle
                             return next();
                         }
                         break;
+                    case -1:
+                        error("end of input in comment..");
+                        return nullptr;
                     }
             }
             return mk_token(SLASH_ID);
